@@ -216,7 +216,8 @@ class Scn:
     """one fully built 1D problem: model, mesh, scheme, boundary conditions, discretisation, field"""
     def desc(self):
         return {"model": self.mname, "params": self.mparams, "flux": self.flux, "recon": self.rname, "mesh": self.mdesc,
-                "bcL": self.bcL, "bcR": self.bcR, "prim": self.prim, "datakind": self.dkind}
+                "bcL": self.bcL, "bcR": self.bcR, "prim": self.prim, "datakind": self.dkind,
+                "objects_used_before_on_another_mesh": getattr(self, "warm", False)}
 
     def cls(self):
         return "%s/%s" % (self.mname, self.flux)
@@ -282,8 +283,30 @@ def open_bc(mname, model, rng, prim, side):
     return {"type": t}
 
 
+def _warm_up(rng, s, bc, mach_max, ratio):
+    """use the SAME model and reconstruction objects on another mesh (same number of cells, other geometry, other data and boundary
+    parameters) before the real problem is built: state remembered on these objects from a previous use must not matter"""
+    mesh2, _ = mesh1d(rng, ncell=s.mesh.ncell)
+    prim2, _ = prim_for(s.mname, s.model, rng, mesh2.ncell, None, mach_max=mach_max, ratio=min(ratio, 10.0))
+    if s.bckind == "per":
+        b2L = b2R = {"type": "per"}
+    elif s.bckind == "sym":
+        b2L, b2R = {"type": "sym"}, {"type": "sym"}
+    else:
+        b2L, b2R = open_bc(s.mname, s.model, rng, prim2, "L"), open_bc(s.mname, s.model, rng, prim2, "R")
+    d2 = md.fvm(s.model, mesh2, s.num, numflux=s.flux, bcL=b2L, bcR=b2R)
+    f2 = fdata_prim(s.model, mesh2, prim2)
+    try:
+        d2.rhs(f2)
+        d2.calc_timestep(f2, 0.5)
+        for name in list(s.model.list_var())[:3]:
+            f2.phydata(name)
+    except np.linalg.LinAlgError:
+        pass
+
+
 def scenario1d(rng, models=MODELS1D, bc=None, recons=ALL_RECONS, meshkinds=MESH_KINDS, ncell=None, nmin=3, nmax=24,
-               dkind=None, fluxes=None, mach_max=2.0, ratio=10.0, source=None, mname=None, section=None):
+               dkind=None, fluxes=None, mach_max=2.0, ratio=10.0, source=None, mname=None, section=None, warm=None):
     s = Scn()
     s.mname = mname or str(rng.choice(models))
     s.model, s.mparams = make_model(s.mname, rng, source=source, section=section)
@@ -304,6 +327,9 @@ def scenario1d(rng, models=MODELS1D, bc=None, recons=ALL_RECONS, meshkinds=MESH_
         s.bcL, s.bcR = {"type": "sym"}, {"type": "sym"}
     else:
         s.bcL, s.bcR = open_bc(s.mname, s.model, rng, s.prim, "L"), open_bc(s.mname, s.model, rng, s.prim, "R")
+    s.warm = bool(rng.random() < 0.25) if warm is None else bool(warm)
+    if s.warm and source is None and section is None:
+        _warm_up(rng, s, bc, mach_max, ratio)
     s.disc = md.fvm(s.model, s.mesh, s.num, numflux=s.flux, bcL=s.bcL, bcR=s.bcR)
     s.field = fdata_prim(s.model, s.mesh, s.prim)
     return s
